@@ -7,6 +7,7 @@
 (*        function name: transitive set, direct set, graph edges <<src, target>>          *)
 (*   call(name, exc, passed)           a call of the automatically versioned name; passed: *)
 (*                                     memento functions handed to it as arguments         *)
+(*   graph(g)                          the reference graph from now on (an alias re-bound)  *)
 EXTENDS Naturals, Sequences, FiniteSets, TLC
 
 SeqToSet(s) == {s[i] : i \in 1..Len(s)}
@@ -59,10 +60,11 @@ Clauses(st, e) ==
              Undeclared(st.g, e.name, SeqToSet(e.passed)) => e.exc = "UndeclaredDependencyError">>,
          <<"call_inside_static_closure_is_allowed",
              ~Undeclared(st.g, e.name, SeqToSet(e.passed)) => e.exc = "">> >>
-    [] e.op = "proc" -> <<>>
+    [] e.op \in {"proc", "graph"} -> <<>>
     [] OTHER -> << <<"history_step_executed_without_machinery_error", FALSE>> >>
 
 COk(st, e)  == \A i \in 1..Len(Clauses(st, e)) : Clauses(st, e)[i][2]
 CWhy(st, e) == {Clauses(st, e)[i][1] : i \in {j \in 1..Len(Clauses(st, e)) : ~Clauses(st, e)[j][2]}}
-CStep(st, e) == st
+\* graph(g): the program changed in the running process (an alias name was re-bound): g is the reference graph from now on
+CStep(st, e) == IF e.op = "graph" THEN [g |-> e.graph] ELSE st
 =============================================================================
